@@ -5,3 +5,8 @@ Open Scope string_scope.
 
 Lemma exits_is_source : gen_exits = exits_expected.
 Proof. vm_compute. reflexivity. Qed.
+
+(** the bodies of ক্লক and ইনপুট are the ones Model/Eval.v's [call_native] transcribes (Spec/NativeMechanism.v) *)
+From Borno Require Import NativeMechanism.
+Lemma native_bodies_match_C19 : pick io_natives gen_native_trace = pick io_natives native_trace_expected.
+Proof. vm_compute. reflexivity. Qed.
